@@ -25,7 +25,7 @@ RULE = (
     "the library's own metric, which is monotone along the path and equal to the summed WGS84 geodesic leg lengths (1e-6 relative); "
     "prepared data holds each segment's cell labels at every depth.  Non-trivial: paths with >= 2 inside "
     "intervals, touching a hole, or with 3 waypoints."
-    ' Also: datasets at 60N and 72S, every 3-waypoint path again with a third ordinate, lazily loaded (dask) variables.'
+    ' Also: datasets at 60N and 72S, every 3-waypoint path again with a third ordinate, lazily loaded (dask) variables, column-major variables and variables with their dimensions stored in reverse.'
 )
 LEVEL_TEXT = ("all 2- and 3-waypoint simple polylines over 8 dataset-derived waypoints on 6 datasets: segment/cell identity, "
               "order, exact coverage of path ∩ cells, additive lengths, per-depth values")
@@ -267,6 +267,18 @@ def run_case(case):
                 want_values = labels[:, :, [int(s.linear_index) for s in segments]]
                 rec.check(ref.same_values(values, want_values), f"{fp}/values-not-of-segment-cell",
                           f"{label}: prepared data does not hold each segment's cell values at every depth", want_values[0, :, :4], values[0, :, :4])
+                if len(segments) >= 2:
+                    # the same variable held column-major, and with its dimensions stored in the reverse order
+                    temp = ds['temp']
+                    layouts = {
+                        'column-major': temp.copy(data=np.asfortranarray(temp.values)),
+                        'reversed-dimensions': temp.transpose(*reversed(temp.dims)).copy(deep=True),
+                    }
+                    for layout, variable in layouts.items():
+                        other = lib(transect.prepare_data_array_for_transect, variable)
+                        other_values = other.transpose(truth.time_dim, truth.depth_dim, other.dims[-1]).values
+                        rec.check(ref.same_values(other_values, want_values), f"{fp}/values-not-of-segment-cell",
+                                  f"{label}: prepared data of a {layout} variable", want_values[0, :, :4], other_values[0, :, :4])
                 if len(segments) >= 3:
                     lazy = lib(transect.prepare_data_array_for_transect, ds['temp'].chunk())
                     lazy_values = lazy.transpose(truth.time_dim, truth.depth_dim, lazy.dims[-1]).values
